@@ -49,6 +49,10 @@ def gen_hypergraph(rng, weighted=None):
     for n in labels:
         if rng.random() < 0.4:
             h.add_node(n)
+    if rng.random() < 0.35:  # calls the library refuses, made before measuring (a refused call must leave no trace)
+        from ..mutate import refused_calls
+
+        refused_calls(rng, h)
     return h, uni
 
 
@@ -58,7 +62,7 @@ def run_case(ctx, rng, idx):
         from ..gen import big_hypergraph
 
         ctx.event("big-hypergraph")
-        static_case(ctx, rng, big_hypergraph(rng, weighted=rng.random() < 0.3, n=rng.randint(40, 70), m=rng.randint(100, 200)), idx, stress=True)
+        static_case(ctx, rng, big_hypergraph(rng, weighted=rng.random() < 0.3, n=rng.randint(66, 90), m=rng.randint(100, 200)), idx, stress=True)
         return
     if m <= 4:
         h, uni = gen_hypergraph(rng)
@@ -336,7 +340,7 @@ def temporal_case(ctx, rng, idx):
     from hypergraphx.linalg import temporal_adjacency_matrix
 
     cfg = history.Cfg(rng, "T", uni=rng.choice(["small", "gaps", "str", "bigneg"]))
-    cfg.invalid_rate = 0
+    cfg.invalid_rate = 0.1  # refused calls are part of the build: they must leave no trace in what is measured
     cfg.avoid = {"copy", "clear"}
     cfg.n_ops = rng.randint(5, 25)
     try:
